@@ -65,6 +65,9 @@ WITNESSES = [
     {"match": r"int_arm\.post\[exp_exact\]", "kind": "run", "props": ["C04"],
      "input": "println(string_repr(2 ** 62))\nprintln(string_repr(-2 ** 63))\nprintln(string_repr(3 ** 0))",
      "expect": {"stdout": "4611686018427387904\n-9223372036854775808\n1"}},
+    {"match": r"int_arm\.post\[exp_exact\]", "kind": "run", "props": ["C04"],
+     "input": "println(string_repr(0 ** 4294967296))\nprintln(string_repr(0 ** 4294967297))\nprintln(string_repr(-1 ** 4294967296))\nprintln(string_repr(-1 ** 4294967297))\nprintln(string_repr(0 ** 0))\nprintln(string_repr(-2 ** 3))",
+     "expect": {"stdout": "0\n0\n1\n-1\n1\n-8"}, "note": "huge exponents of 0 and -1; 0 ** 0 is 1"},
     {"match": r"int_arm\.post\[(add|sub|mul)_wraps\]", "kind": "run", "props": ["C04"],
      "input": "println(string_repr(9223372036854775807 + 1))\nprintln(string_repr(%s - 1))\nprintln(string_repr(4611686018427387904 * 2))" % MIN,
      "expect": {"stdout": "-9223372036854775808\n9223372036854775807\n-9223372036854775808"}},
